@@ -170,14 +170,8 @@ accumulates for a physical batch is the flat clipped sum (for the repaired loss 
 coded for per-sample losses of shape `[B]`) -/
 theorem ghost_eq_flat (v : Variant) (s : LossShape) (hvs : ¬ (v = .asCoded ∧ s = .col)) (C : ℝ)
     (batch : List ((Fin P → ℝ) × Grad ℝ d)) (hex : ∀ x ∈ batch, x.1 = paramNorms x.2) :
-    ghostBatchGrad v s C batch = batchSum (.flat C) (batch.map (·.2)) := by
-  funext k i
-  rw [ghostBatchGrad_apply v s hvs, batchSum_apply, List.map_map]
-  congr 1
-  apply List.map_congr_left
-  intro x hx
-  simp only [Function.comp, clippingCoef, normSample, hex x hx]
-  rfl
+    ghostBatchGrad v s C batch = batchSum (.flat C) (batch.map (·.2)) :=
+  ghostBatchGrad_eq_batchSum v s hvs C batch hex
 
 /-- hence ghost clipping with exact samplers has the sensitivity of flat clipping, physical-batch
 accumulation included -/
